@@ -9,7 +9,10 @@
        q~^H micro q~ with q~ the orthonormal factor padded by identities (tensordot with eye, transpose,
        reshape), is exactly the index formula of the model (C11_projected_operator_lead / _trail);
      - trajectory shape: the drivers' loop returns exactly one state per step, the k-th state being the
-       state after k steps (C11_trajectory).
+       state after k steps (C11_trajectory);
+     - the effective operators: tdvp1site / tdvp2site build their micro matrices with the helpers of sle.py, so the
+       frame identities hold verbatim: the one-site effective operator is P^H H P (C11_effective_operator_1site) and the
+       two-site one likewise (C11_effective_operator_2site), for every position, order, dimension and rank.
    PARTIAL: exactness at maximal ranks (Lubich-Oseledets) and exactness of the Lanczos propagator need the
    matrix exponential, which is an oracle here (expm_multiply answered from the tape in the correspondence);
    those clauses, and "inputs unchanged", are decided by the correspondence and the float side check
@@ -17,7 +20,7 @@
    specifications of QR/RQ/SVD and expm, not proved of LAPACK. *)
 From Coq Require Import ZArith List Lia Arith.
 Import ListNotations.
-Require Import Ring Sums Matrix Tdvp TdvpProof.
+Require Import Ring Sums Matrix Core Chain TensordotProof Env EnvProof FrameProof FrameProof2 Tdvp TdvpProof.
 Open Scope cr_scope.
 
 Theorem C11_norm_conserved (R : cring) (N K : nat) (P U : nat -> nat -> R) (c : nat -> R) :
@@ -56,6 +59,28 @@ Proof.
               (conj eq_refl (conj (fun k Hk => traj_nth out n f dflt s k Hk) (traj_final out n f s)))).
 Qed.
 Print Assumptions C11_trajectory.
+
+Theorem C11_effective_operator_1site (R : cring) (Xp Ap Xs As : list (core R)) (A : core R) fx c x c' s y s' :
+  length Ap = length Xp -> linked Xp fx -> linked Ap (rl A) -> rl_of Xp fx = 1%nat -> rl_of Ap (rl A) = 1%nat ->
+  length As = length Xs -> linked Xs 1%nat -> linked As 1%nat -> rl_of As 1%nat = rr A ->
+  (c < fx)%nat -> (s < fx)%nat -> (c' < rl_of Xs 1)%nat -> (s' < rl_of Xs 1)%nat -> (x < md A)%nat -> (y < nd A)%nat ->
+  snd (micro_op_als (lstack_from one3 Xp Ap) (rstack Xs As) A fx (rl_of Xs 1%nat))
+      ((c * md A + x) * rl_of Xs 1%nat + c')%nat ((s * nd A + y) * rl_of Xs 1%nat + s')%nat =
+  sum (rl A) (fun r => sum (rr A) (fun r' => Kernel Xp Ap 0%nat 0%nat 0%nat s r c * g A r x y r' * RightProd Xs As s' r' c')).
+Proof. exact (frame_als Xp Ap Xs As A fx c x c' s y s'). Qed.
+Print Assumptions C11_effective_operator_1site.
+
+Theorem C11_effective_operator_2site (R : cring) (Xp Ap Xs As : list (core R)) (A1 A2 : core R) fx c x1 x2 c' s y1 y2 s' :
+  length Ap = length Xp -> linked Xp fx -> linked Ap (rl A1) -> rl_of Xp fx = 1%nat -> rl_of Ap (rl A1) = 1%nat ->
+  length As = length Xs -> linked Xs 1%nat -> linked As 1%nat -> rl_of As 1%nat = rr A2 ->
+  (c < fx)%nat -> (s < fx)%nat -> (c' < rl_of Xs 1)%nat -> (s' < rl_of Xs 1)%nat ->
+  (x1 < md A1)%nat -> (y1 < nd A1)%nat -> (x2 < md A2)%nat -> (y2 < nd A2)%nat ->
+  snd (micro_op_mals (lstack_from one3 Xp Ap) (rstack Xs As) A1 A2 fx (rl_of Xs 1%nat))
+      (((c * md A1 + x1) * md A2 + x2) * rl_of Xs 1%nat + c')%nat (((s * nd A1 + y1) * nd A2 + y2) * rl_of Xs 1%nat + s')%nat =
+  sum (rl A1) (fun r => sum (rr A1) (fun rm => sum (rr A2) (fun r' =>
+    Kernel Xp Ap 0%nat 0%nat 0%nat s r c * g A1 r x1 y1 rm * g A2 rm x2 y2 r' * RightProd Xs As s' r' c'))).
+Proof. exact (frame_mals Xp Ap Xs As A1 A2 fx c x1 x2 c' s y1 y2 s'). Qed.
+Print Assumptions C11_effective_operator_2site.
 
 (* non-vacuity: over the Gaussian integers, P = I_2 and U = i * swap are an orthonormal frame and a unitary;
    U commutes with M = [[2, 1], [1, 2]] *)
